@@ -66,7 +66,7 @@ class Check:
         return 600 if tier == 'quick' else 6600
 
     def determinism_sample(self, tier):
-        return 6 if tier == 'quick' else 96
+        return 16 if tier == 'quick' else 96
 
     # ------------------------------------------------------------------
     def gen(self, seed, tier):
